@@ -377,7 +377,7 @@ pub fn run(args: &Args) -> anyhow::Result<()> {
                 break;
             }
             n += 1;
-            let id = op["id"].as_u64().unwrap_or(n);
+            let id = op["mid"].as_u64().unwrap_or(n);
             marker.mark(&format!("S {}\n", id));
             let r = tokio::time::timeout(Duration::from_secs(op["timeout_s"].as_u64().unwrap_or(120)), st.exec(&op)).await;
             let resp = match r {
